@@ -147,3 +147,18 @@ Example C18b_lock_previous_example :
   @rows_matrix float NFb exb_x exb_lock [[1]; [0]; [1]] = Ok [[1; PrimFloat.nan]; [0; 0.25]; [1; 0.25]].
 Proof. vm_compute. split; reflexivity. Qed.
 Print Assumptions C18b_lock_previous_example.
+
+(* repaired code: when every output value is 0-d (here: the only output variable is disabled) the one row of output values
+   is repeated for every grid point instead of np.hstack raising *)
+Definition exb_disabled : engine float :=
+  Build_engine "t"
+    [Build_input_var "x" true 0 1 false [TShape "lo" (Sh_Ramp 1 0 1)] PrimFloat.nan]
+    [Build_output_var "y" false 0 1 false false PrimFloat.nan None (Some (DWeighted true WTakagiSugeno))
+       [TShape "A" (Sh_Constant 0.25)] PrimFloat.nan PrimFloat.nan []]
+    [Build_block "rb" true None None None (Some AGeneral)
+       [Build_rule true 1 (Some (EProp (VIn 0) [] (Some 0%nat))) [Build_conclusion 0 [] 0] 0 false]].
+Example C18b_all_scalar_outputs_example :
+  @engine_matrix float NFb exb_x exb_disabled [[0]; [0.5]; [1]] = Ok [[0; PrimFloat.nan]; [0.5; PrimFloat.nan]; [1; PrimFloat.nan]] /\
+  @rows_matrix float NFb exb_x exb_disabled [[0]; [0.5]; [1]] = Ok [[0; PrimFloat.nan]; [0.5; PrimFloat.nan]; [1; PrimFloat.nan]].
+Proof. vm_compute. split; reflexivity. Qed.
+Print Assumptions C18b_all_scalar_outputs_example.
